@@ -107,31 +107,31 @@ class Check(DiffCheck):
             for w in itertools.product(range(n), repeat=L):
                 yield ''.join(DIG[x] for x in w)
         ex = [
-            ('mpmc', 2, ['uu', 'u', 'ooo'], 7 if quick else 10),
-            ('mpmc', 1, ['u', 'uu', 'oo'], 6 if quick else 9),
-            ('mpmc', 2, ['ss', 's', 'rrr'], 6 if quick else 9),
-            ('mpmc', 2, ['us', 'su', 'oro'], 6 if quick else 9),
-            ('mpmc', 4, ['uuu', 'uu', 'oor'], 6 if quick else 8),
-            ('bmpmc', 2, ['uB', 'u', 'o2o'], 6 if quick else 9),
-            ('bmpmc', 4, ['CB', 'Bu', '3o2'], 6 if quick else 8),
-            ('spsc', 2, ['uuu', 'ooo'], 8 if quick else 13),
-            ('spsc', 2, ['uBu', 'o2o'], 8 if quick else 12),
-            ('spsc', 3, ['CuC', '3o4'], 8 if quick else 12),
+            ('mpmc', 2, ['uu', 'u', 'ooo'], 6 if quick else 10),
+            ('mpmc', 1, ['u', 'uu', 'oo'], 5 if quick else 9),
+            ('mpmc', 2, ['ss', 's', 'rrr'], 5 if quick else 9),
+            ('mpmc', 2, ['us', 'su', 'oro'], 5 if quick else 9),
+            ('mpmc', 4, ['uuu', 'uu', 'oor'], 5 if quick else 8),
+            ('bmpmc', 2, ['uB', 'u', 'o2o'], 5 if quick else 9),
+            ('bmpmc', 4, ['CB', 'Bu', '3o2'], 5 if quick else 8),
+            ('spsc', 2, ['uuu', 'ooo'], 7 if quick else 13),
+            ('spsc', 2, ['uBu', 'o2o'], 7 if quick else 12),
+            ('spsc', 3, ['CuC', '3o4'], 7 if quick else 12),
         ]
         ex = [e for e in ex if e[0] in self.kinds()]
         # RingChannel protocol (real send/recv/notify code over an atomic abstract FIFO + counter semaphores):
         # exhaustive schedule words; 'start' field = yield_turn
         if 'chan' in self.kinds():
-            for capreq, Y, spec, L in [(2, 0, ['s', 'r'], 9 if quick else 14), (2, 0, ['ss', 'r', 'r'], 7 if quick else 10),
-                                       (2, 1, ['s', 's', 'rr'], 6 if quick else 9), (2, 0, ['sss', 'r'], 8 if quick else 12),
-                                       (2, 0, ['s', 's', 'r', 'r'], 6 if quick else 8)]:
+            for capreq, Y, spec, L in [(2, 0, ['s', 'r'], 8 if quick else 14), (2, 0, ['ss', 'r', 'r'], 6 if quick else 10),
+                                       (2, 1, ['s', 's', 'rr'], 5 if quick else 9), (2, 0, ['sss', 'r'], 7 if quick else 12),
+                                       (2, 0, ['s', 's', 'r', 'r'], 5 if quick else 8)]:
                 for w in words(len(spec), L):
                     cs.append(mk_case('chan', capreq, Y, 300, spec, w, 'full'))
         for kind, capreq, spec, L in ex:
             for w in words(len(spec), L):
                 cs.append(mk_case(kind, capreq, 0, 400, spec, w))
         # ---- random
-        nrand = 2500 if quick else 60000
+        nrand = 1500 if quick else 60000
         for _ in range(nrand):
             cs.append(self.random_case(rng))
         return list(dict.fromkeys(cs))
